@@ -62,8 +62,10 @@ Inductive ns_out :=
 | NsAcc                      (* coap_send() returned the mid *)
 | NsRef                      (* coap_send() returned COAP_INVALID_MID *)
 | NsNack (reason mid : Z) (haspdu : bool)   (* nack handler called *)
-| NsDrop (m : ns_msg).       (* ghost: a held message is discarded by a disconnect (not observable
+| NsDrop (m : ns_msg)        (* ghost: a held message is discarded by a disconnect (not observable
                                 for a NON; a CON additionally gets its NsNack) *)
+| NsErrW (m : ns_msg).       (* the socket write of this message failed (only produced by the
+                                write-failure extension NstartFail.v) *)
 
 Definition ns_ncon (n : ns_node) : bool := ns_con (ns_nmsg n).
 Definition ns_nmid (n : ns_node) : Z := ns_mid (ns_nmsg n).
@@ -215,15 +217,21 @@ Definition ns_drops (reason : Z) (l : list ns_node) : list ns_out :=
 
 (* coap_session_disconnected_lkd(session, reason) *)
 Definition ns_fail (c : ns_cfg) (s : ns_st) (reason : Z) : ns_st * list ns_out :=
-  let first := match ns_sq s with n :: _ => [NsNack reason (ns_nmid n) true] | [] => [] end in
+  (* "take the first one": reported here only if coap_cancel_session_messages() below will not
+     report it (ICMP: nothing is removed; or the entry is not a CON) - /repo 62d0bc3 *)
+  let first := match ns_sq s with
+               | n :: _ => if (reason =? ns_ICMP) || negb (ns_ncon n)
+                           then [NsNack reason (ns_nmid n) true] else []
+               | [] => []
+               end in
   (* "Unable to determine which request disconnection was for": the newest request waiting for
      a separate response, else a NACK without a pdu *)
   let fallback := match ns_lg s with m :: _ => [NsNack reason m true] | [] => [NsNack reason 0 false] end in
   if reason =? ns_ICMP then
-    (s, match first with [] => fallback | _ => first end)
+    (s, match ns_sq s with [] => fallback | _ :: _ => first end)
   else
     let held := ns_drops reason (ns_dq s) in
-    let sent_nack := match first, filter ns_ncon (ns_dq s) with [], [] => false | _, _ => true end in
+    let sent_nack := match ns_sq s, filter ns_ncon (ns_dq s) with [], [] => false | _, _ => true end in
     (ns_mkst false (ns_udp c) 0 [] [] [],
      first ++ held ++ (if sent_nack then [] else fallback) ++ ns_nacks reason (ns_sq s)).
 
